@@ -23,6 +23,7 @@ class Ctx:
     def __init__(self, pid, tier, seed):
         self.pid, self.tier, self.seed = pid, tier, seed
         self.workdir = vlib.ensure_dir(os.path.join(vlib.WORK, "%s-%s-%d" % (pid, tier, os.getpid())))
+        vlib.ensure_dir(os.path.join(vlib.COQ, "gen"))
         self.t0 = time.time()
         self.notes = []
 
